@@ -87,7 +87,7 @@ void FeatureChecker::visitAssignment(expression_t& ass)
 {
     switch (ass.get_kind()) {
     case Constants::ASSIGN:
-        if (ass.uses_fp() && !ass.uses_hybrid())
+        if (ass.uses_fp() && !ass.get(0).uses_hybrid())
             supported_methods.symbolic = false;
         break;
     case Constants::COMMA:
